@@ -159,7 +159,8 @@ macro_rules! sealed_float {
                         dir: Ordering::Equal,
                         overflow: false,
                     };
-                    return FloatKind::Finite { neg, conv };
+                    // zero is not negative, even if its sign bit is set
+                    return FloatKind::Finite { neg: false, conv };
                 }
 
                 let mut src_frac_bits = prec - 1 - exp;
